@@ -108,7 +108,7 @@ func targetedCloseDuringCollectorTick(c *core.Ctx, variant int) {
 	select {
 	case <-done:
 		early = true
-	case <-time.After(150 * time.Millisecond):
+	case <-time.After(time.Second): // generous: on a loaded machine a Close that does not wait still needs a moment to return
 	}
 	var leaks []string
 	if early {
@@ -446,7 +446,7 @@ func targetedNoConnCloseWaitsForReader(c *core.Ctx, defaultAgent bool) {
 	select {
 	case <-done:
 		early = true
-	case <-time.After(150 * time.Millisecond):
+	case <-time.After(time.Second): // generous: on a loaded machine a Close that does not wait still needs a moment to return
 	}
 	var alive []string
 	if early {
